@@ -86,12 +86,25 @@ def val(f, t, sp):
     return float(FNUM[f] * 1000 + t * 100 + sp)
 
 
+def supplied(arr, form, small):
+    """The array as the caller hands it over (Codec.tla ArrForms); `small` is a narrower type holding the same values."""
+    arr = np.asarray(arr)
+    if form == 'strided':
+        buf = np.full(2 * len(arr) + 1, -7, dtype=arr.dtype)
+        buf[1::2] = arr
+        return buf[1::2]
+    if form == 'cast':
+        return arr.astype(small)
+    return arr
+
+
 def values_for(case, t, n):
     """The values trajectory t carries in the vc_codec field set."""
     from AEIC.performance.types import ThrustModeValues
     from AEIC.types import Species, SpeciesValues
 
     sets = case['s'] if t == 1 else case['s2']
+    form = case.get('arr', 'contiguous')
     v = {
         't_f': None if 't_f' in case['unset'] else 0.5 + t,
         't_i': None if 't_i' in case['unset'] else 7 + t,
@@ -99,11 +112,11 @@ def values_for(case, t, n):
         't_fd': {'set': 3.5 + t, 'none': None, 'untouched': UNTOUCHED}[case['dflt'][t - 1]],
         't_id': {'set': 11 + t, 'none': None, 'untouched': UNTOUCHED}[case['dflt'][t - 1]],
         't_req': 9.25 * t,
-        'tp_f': np.arange(n, dtype=float) * 0.5 + t,
-        'tp_i': np.arange(n, dtype=np.int32) + t,
+        'tp_f': supplied(np.arange(n, dtype=float) * 0.5 + t, form, np.float32),
+        'tp_i': supplied(np.arange(n, dtype=np.int32) + t, form, np.int16),
         'ts1': SpeciesValues({Species(sp): val('ts1', t, sp) for sp in sets['ts1']}),
         'ts2': SpeciesValues({Species(sp): val('ts2', t, sp) for sp in sets['ts2']}),
-        'tsp': SpeciesValues({Species(sp): np.arange(n, dtype=float) + val('tsp', t, sp) for sp in sets['tsp']}),
+        'tsp': SpeciesValues({Species(sp): supplied(np.arange(n, dtype=float) + val('tsp', t, sp), form, np.float32) for sp in sets['tsp']}),
         'tm': ThrustModeValues(t + 0.1, t + 0.2, t + 0.3, t + 0.4),
         'tsm': SpeciesValues({Species(sp): ThrustModeValues(*(val('tsm', t, sp) + k / 8 for k in range(4))) for sp in sets['tsm']}),
     }
